@@ -45,7 +45,7 @@ def _np_kind(kind):
 
 @st.composite
 def sizes(draw):
-    return draw(st.one_of(st.integers(0, 8), st.integers(17, 40)))
+    return draw(st.one_of(st.integers(17, 40), st.integers(0, 8)))  # (the first alternative is favoured: sizes where unstable sorts differ)
 
 
 @st.composite
@@ -89,13 +89,17 @@ def has_informative_tie(keycols, other_cols):
 
 @st.composite
 def frame_cases(draw):
+    # decisive choices first (late draws are pinned to their first option for a share of Hypothesis's examples)
+    what = draw(st.sampled_from(['sort_values', 'sort_values', 'sort_values_axis0', 'sort_index', 'sort_columns', 'sort_index_ih']))
+    asc, consolidate = draw(st.booleans()), draw(st.booleans())
+    keyfn = draw(st.sampled_from([None, 'abs', None, 'array', None, 'container_neg']))
+    name = draw(st.sampled_from([None, 'fn']))
+    nk = draw(st.sampled_from([2, 1, 3]))
     n = draw(sizes())
-    nk = draw(st.integers(1, 3))
     keycols = [draw(key_column(n)) for _ in range(nk)]
     extra = draw(st.integers(0, 2))
     payload = [np.arange(n) * 10 + q for q in range(extra + 1)]  # distinct per row: identifies whole rows
     order = draw(st.permutations(list(range(nk + extra + 1))))
-    what = draw(st.sampled_from(['sort_values', 'sort_values', 'sort_values_axis0', 'sort_index', 'sort_columns', 'sort_index_ih']))
     if what in ('sort_index', 'sort_columns'):
         kind = draw(st.sampled_from(['int', 'str', 'float', 'date']))
         labs = draw(gen.flat_labels(n, kind))
@@ -108,9 +112,7 @@ def frame_cases(draw):
             col = [t[d] for t in tl]
             k = 'M8[D]' if isinstance(col[0], np.datetime64) else ('<U3' if isinstance(col[0], str) else 'int64')
             keycols.append(gen.to_array(k, col))
-    return {'what': what, 'keycols': keycols, 'payload': payload, 'order': list(order), 'asc': draw(st.booleans()),
-            'keyfn': draw(st.sampled_from([None, None, None, 'abs', 'array', 'container_neg'])), 'consolidate': draw(st.booleans()),
-            'name': draw(st.sampled_from([None, 'fn']))}
+    return {'what': what, 'keycols': keycols, 'payload': payload, 'order': list(order), 'asc': asc, 'keyfn': keyfn, 'consolidate': consolidate, 'name': name}
 
 
 def _layout(cols, consolidate):
@@ -237,9 +239,10 @@ def check_frame(case):
 
 @st.composite
 def series_cases(draw):
+    ch = {'what': draw(st.sampled_from(['sort_values', 'sort_values', 'sort_index'])), 'asc': draw(st.booleans()),
+          'keyfn': draw(st.sampled_from([None, 'abs', None, 'array'])), 'name': draw(st.sampled_from([None, 'sn']))}  # decisive choices first
     n = draw(sizes())
-    return {'vals': draw(key_column(n)), 'what': draw(st.sampled_from(['sort_values', 'sort_values', 'sort_index'])), 'asc': draw(st.booleans()),
-            'keyfn': draw(st.sampled_from([None, None, 'abs', 'array'])), 'name': draw(st.sampled_from([None, 'sn']))}
+    return dict({'vals': draw(key_column(n))}, **ch)
 
 
 def check_series(case):
@@ -281,8 +284,8 @@ def tag(case, f):
 
 
 SUBS = [
-    Sub('frame', frame_cases(), check_frame, quick=1500, thorough=48000, tag=tag,
+    Sub('frame', frame_cases(), check_frame, quick=6000, thorough=48000, tag=tag,
         rule='Frame sort_values / sort_index / sort_columns vs stable sorted(); descending == reverse'),
-    Sub('series', series_cases(), check_series, quick=1200, thorough=32000, tag=tag,
+    Sub('series', series_cases(), check_series, quick=4800, thorough=32000, tag=tag,
         rule='Series sort_values / sort_index vs stable sorted()'),
 ]
